@@ -326,8 +326,9 @@ def windows_drive_bytes(ctx, label='escape / is_magic on Windows device prefixes
             for fl in flagsets:
                 n += 1
                 va, vb = Gm.is_magic(s, flags=fl), Gm.is_magic(s.encode(), flags=fl)
-                if va != vb or first.setdefault(fl, va) != va:
-                    _ce(ctx, st, 'glob.is_magic(%r, %s) = %r for str, %r for bytes (first answer in this process: %r)' % (s, corr.flag_names(fl), va, vb, first[fl]), {'string': s, 'flags': corr.flag_names(fl)})
+                f0 = first.setdefault(fl, va)
+                if va != vb or f0 != va:
+                    _ce(ctx, st, 'glob.is_magic(%r, %s) = %r for str, %r for bytes (first answer in this process: %r)' % (s, corr.flag_names(fl), va, vb, f0), {'string': s, 'flags': corr.flag_names(fl)})
     return _count(ctx, label, n, {'string': "b'//?/UNC/ser-ver/sh(a)re/file[1].txt'"})
 
 
